@@ -358,6 +358,70 @@ theorem setParameterValue_exact (h : Store) (l : List ObjId) (n : String) (v : R
       else r.err = none ∧ (r.heap.get t) = { h.get t with value := v } ∧ ∀ i, i ≠ t → r.heap.get i = h.get i :=
   setParameterValue_spec h l n v
 
+/-! ### the bulk forms, exactly (two lists with pairwise different names)
+
+`mergePrefix` = the source entries before the first collision whose value the target refuses
+(everything, when none is refused); `mergeNews` = those of them whose name is new to the list. -/
+
+/-- **include_exact**: `includeParameters` processes `mergePrefix`; it raises ConstraintException
+iff that is not the whole source; colliding entries become value updates of their targets
+(`expectedSome`), new names are appended as fresh clones in order, nothing else changes. -/
+theorem include_exact (h : Store) (l src : List ObjId) (v : Valid h l) (vs : Valid h src)
+    (ndl : (names h l).Nodup) (nds : (names h src).Nodup) :
+    let r := includeParameters h l src
+    r.err = (if (mergePrefix h l src).length = src.length then none else some .constraint) ∧
+    r.list = l ++ List.range' h.next (mergeNews h l src).length ∧
+    r.heap.next = h.next + (mergeNews h l src).length ∧
+    (List.range' h.next (mergeNews h l src).length).map r.heap.get = (mergeNews h l src).map h.get ∧
+    (∀ i, i < h.next → r.heap.get i = expectedSome h l (mergePrefix h l src) i) :=
+  includeParameters_spec src h l v vs ndl nds
+
+/-- **share_all_exact**: the same for `shareParameters`, except that new names are appended as
+*the source's own objects* and nothing is allocated. -/
+theorem share_all_exact (h : Store) (l src : List ObjId) (ndl : (names h l).Nodup) (nds : (names h src).Nodup) :
+    let r := shareParameters h l src
+    r.err = (if (mergePrefix h l src).length = src.length then none else some .constraint) ∧
+    r.list = l ++ mergeNews h l src ∧ r.heap.next = h.next ∧
+    (∀ i, r.heap.get i = expectedSome h l (mergePrefix h l src) i) :=
+  shareParameters_full_spec src h l ndl nds
+
+/-- **add_all_exact**: `addParameters` appends fresh clones of the entries before the first name
+that is already present, then raises ParameterException; existing objects are untouched. -/
+theorem add_all_exact (h : Store) (l src : List ObjId) (v : Valid h l) (vs : Valid h src)
+    (ndl : (names h l).Nodup) (nds : (names h src).Nodup) :
+    let r := addParameters h l src
+    r.err = (if (addPrefix h l src).length = src.length then none else some .bpp) ∧
+    r.list = l ++ List.range' h.next (addPrefix h l src).length ∧
+    r.heap.next = h.next + (addPrefix h l src).length ∧
+    (List.range' h.next (addPrefix h l src).length).map r.heap.get = (addPrefix h l src).map h.get ∧
+    (∀ i, i < h.next → r.heap.get i = h.get i) :=
+  addParameters_full_spec src h l v vs ndl nds
+
+/-- **whole_parameter_assignment**: `matchParameters` / `setParameters` / `setAllParameters` copy
+value *and constraint* of the source entry into the target found by that name; names never change
+(so they keep `names_unique`); the latter two stop with ParameterNotFoundException at the first
+unknown name, keeping what was already assigned (they are not atomic, and are not claimed to be). -/
+theorem whole_parameter_assignment (h : Store) (l src : List ObjId) :
+    ((names h src).Nodup →
+      (matchParameters h l src).err = none ∧ (∀ x, nameOf (matchParameters h l src).heap x = nameOf h x) ∧
+      ∀ i, (matchParameters h l src).heap.get i = expectedPar h l src i) ∧
+    ((names h src).Nodup →
+      (setParameters h l src).err =
+        (if (knownPrefix h l src).length = src.length then none else some .notfound) ∧
+      (∀ x, nameOf (setParameters h l src).heap x = nameOf h x) ∧
+      ∀ i, (setParameters h l src).heap.get i = expectedPar h l (knownPrefix h l src) i) ∧
+    ((names h l).Nodup →
+      (setAllParameters h src l).err =
+        (if (l.takeWhile (fun i => hasParameter h src (nameOf h i))).length = l.length then none
+         else some .notfound) ∧
+      (∀ x, nameOf (setAllParameters h src l).heap x = nameOf h x) ∧
+      ∀ i, (setAllParameters h src l).heap.get i =
+        expectedAllPar h (l.takeWhile (fun i => hasParameter h src (nameOf h i))) src i) := by
+  refine ⟨fun nd => ?_, fun nd => ?_, fun nd => ?_⟩
+  · obtain ⟨a, _, c, d⟩ := matchParameters_spec l src h nd; exact ⟨a, c, d⟩
+  · obtain ⟨a, _, c, d⟩ := setParameters_spec l src h nd; exact ⟨a, c, d⟩
+  · obtain ⟨a, _, c, d⟩ := setAllParameters_spec src l h nd; exact ⟨a, c, d⟩
+
 /-! ## Deletion and lookups address exactly the named entries -/
 
 /-- **delete_indices_exact**: for a repeated-free index list, if every index is in range the
@@ -466,7 +530,8 @@ above (`clauseNames` ↔ `names_unique`, `clauseAtomic` ↔ `bulk_atomic_*`, `cl
 `copy_independent` / `sublist_independent_*`, `clauseShare` ↔ `share_aliases_*`, `clauseDelete` ↔
 `delete_indices_exact` / `delete_name_exact`, `clauseAdd` ↔ `add_dup_refused`, `clauseFrame` ↔
 `frame`, `clauseLookup` ↔ `lookup_exact`, `clauseUpdate` ↔ `setParameterValue_exact` /
-`share_collision_updates`, `clauseDeleteNames` ↔ `deleteParameters_spec`). -/
+`share_collision_updates`, `clauseDeleteNames` ↔ `deleteParameters_spec`, `clauseMerge` ↔
+`include_exact` / `share_all_exact` / `add_all_exact`, `clauseAssign` ↔ `whole_parameter_assignment`). -/
 
 /-- **check_sound**: from every state satisfying the invariant, every operation of the model
 satisfies every clause, for any number `n` of observed registers. -/
@@ -475,7 +540,7 @@ theorem check_sound (n : Nat) (s : State) (inv : Inv s) (op : Op) :
   simp only [checkStep, clauseNames_sound n inv op, clauseOk_sound n inv op, clauseAtomic_sound n inv op,
     clauseFrame_sound n s op, clauseApplies_sound inv op, clauseMatch_sound inv op, clauseFresh_sound inv op,
     clauseShare_sound inv op, clauseDelete_sound op, clauseAdd_sound op, clauseLookup_sound op,
-    clauseUpdate_sound inv op, clauseDeleteNames_sound op]
+    clauseUpdate_sound inv op, clauseDeleteNames_sound op, clauseMerge_sound inv op, clauseAssign_sound inv op]
   rfl
 
 /-- … hence along every history from the empty machine (without `setNamespace`). -/
